@@ -21,6 +21,7 @@
 (*   crash     :                the process ends                           *)
 (*   restart   :                fresh manager + cache, load_data()         *)
 (*   start     :                manager.start()                            *)
+(*   peerdown / peerup : u      queue requests to user u fail / arrive     *)
 (*   quiesce   : sent           the loop ran until idle; sent = keys for   *)
 (*                              which a PeerTransferQueue (download) or    *)
 (*                              PeerTransferRequest (upload) left          *)
@@ -47,7 +48,7 @@ TInit ==
   /\ tid \in 1..Len(Traces)
   /\ l = 1
   /\ mem = Empty /\ db = EmptyDb /\ proc = "running" /\ lastW = Empty
-  /\ started = FALSE /\ cycleReq = FALSE /\ wired = {} /\ picked = {} /\ busy = {}
+  /\ started = FALSE /\ cycleReq = FALSE /\ wired = {} /\ picked = {} /\ busy = {} /\ failq = {} /\ held = {}
   /\ act = "Init" /\ nops = 0 /\ lives = 0
 
 IsEv(e) == l <= Len(T) /\ Rec.ev = e
@@ -99,6 +100,10 @@ TCrash == IsEv("crash") /\ Crash /\ Consume
 \* "each exactly once": the loaded list has no two transfers with one key
 TRestart == IsEv("restart") /\ NoDup(Rec.mem) /\ RestartTo(Logged) /\ Consume
 
+\* the harness makes queue requests to user u (un)deliverable
+TPeerDown == IsEv("peerdown") /\ PeerDown(Rec.u) /\ Consume
+TPeerUp == IsEv("peerup") /\ PeerUp(Rec.u) /\ Consume
+
 TStart == IsEv("start") /\ Logged = mem /\ StartMgr /\ Consume
 
 TQuiesce ==
@@ -118,7 +123,7 @@ Done ==
 Finished == l = Len(T) + 2 /\ UNCHANGED tvars
 
 TNext == \/ TAdd \/ TMutate \/ TSetData \/ TRemove \/ TWrite \/ TStopWrite \/ TOldWrite
-         \/ TCrash \/ TRestart \/ TStart \/ TQuiesce \/ Done \/ Finished
+         \/ TCrash \/ TRestart \/ TStart \/ TQuiesce \/ TPeerDown \/ TPeerUp \/ Done \/ Finished
 
 TSpec == TInit /\ [][TNext]_tvars
 
